@@ -36,11 +36,11 @@ class C01(Check):
         descs = []
         shapes = G.grid_shapes()
         rng.shuffle(shapes)
-        for sh in shapes[:(120 if not thorough else len(shapes))]:
+        for sh in shapes[:(120 if not thorough else 300)]:
             descs.append(("tx", G.tx_desc(rng, **sh)))
-        for _ in range(250 if not thorough else 3000):
+        for _ in range(250 if not thorough else 900):
             descs.append(("tx", G.tx_desc(rng, **G.random_shape(rng, small=True))))
-        for _ in range(20 if not thorough else 200):
+        for _ in range(20 if not thorough else 60):
             descs.append(("tx", G.tx_desc(rng, **G.random_shape(rng, small=False))))
         for n in (0, 1, 2, 3, 127, 128):
             descs.append(("block", G.block_desc(rng, n)))
@@ -85,13 +85,13 @@ class C01(Check):
             else:
                 budget = 150
             if thorough:
-                budget *= 8
+                budget *= 3
             muts = G.mutations_at_every_offset(b, rng)
             if len(muts) > budget:
                 muts = rng.sample(muts, budget)
             for m in muts:
                 cs.append(Case("reser %s %s %s" % (sz, T, m.hex() or "-"), "mut1-" + T))
-            for _ in range(4 if not thorough else 40):
+            for _ in range(4 if not thorough else 12):
                 m = G.multi_mutation(b, rng, rng.randint(2, 6))
                 cs.append(Case("reser %s %s %s" % (sz, T, m.hex() or "-"), "mutN-" + T))
         # structural dump comparison on the seeds (model dump = implementation dump)
@@ -99,7 +99,7 @@ class C01(Check):
             cs.append(Case("dec %s %s %s" % (sz, T, b.hex() or "-"), "dump-" + T))
         # every component type on short arbitrary strings
         for T in COMPONENTS:
-            for _ in range(150 if not thorough else 1500):
+            for _ in range(150 if not thorough else 600):
                 n = rng.choice([0, 1, 2, 3, 5, 9, 33, 34, 40, 70])
                 m = bytes(rng.choice([0, 1, 2, 3, 0x7f, 0x80, 0xff, rng.getrandbits(8)]) for _ in range(n))
                 cs.append(Case("reser %s %s %s" % (sz, T, m.hex() or "-"), "short-" + T))
